@@ -3,9 +3,11 @@
 #define VERIF_C08_PERT_H
 #include <stdint.h>
 #define C08_PERT_WRAPPED "pthread_mutex_lock pthread_mutex_unlock pthread_cond_wait pthread_cond_timedwait pthread_cond_signal pthread_create pthread_join"
-extern volatile int c08_pert_mode;
-extern volatile uint64_t c08_pert_seed;
-extern volatile unsigned c08_pert_usec;
-extern volatile uint64_t c08_pert_ops;
-extern volatile uint64_t c08_pert_threads;
+extern int c08_pert_mode;
+extern uint64_t c08_pert_seed;
+extern unsigned c08_pert_usec;
+extern uint64_t c08_pert_ops;
+extern uint64_t c08_pert_threads;
+#define C08_PERT_SET(mode, seed, usec) do { __atomic_store_n(&c08_pert_seed, (seed), __ATOMIC_RELAXED); \
+	__atomic_store_n(&c08_pert_usec, (usec), __ATOMIC_RELAXED); __atomic_store_n(&c08_pert_mode, (mode), __ATOMIC_RELAXED); } while (0)
 #endif
